@@ -85,7 +85,9 @@ func openCrashNode(dir string) *crashNode {
 }
 func (n *crashNode) close() {
 	n.m.Stop()
-	n.fs.Storage.Close()
+	if n.fs != nil {
+		n.fs.Storage.Close()
+	}
 }
 
 func copyDir(src string) string {
@@ -133,7 +135,9 @@ func crashHistory(rng *rand.Rand, out *Out) {
 	nd := openCrashNode(dir)
 	r := newRef()
 	// prefix history
-	steps := 2 + rng.Intn(6)
+	// 0 steps: the operation under test is the very FIRST commit of an empty store (what chain.Init does with the
+	// genesis momentum)
+	steps := rng.Intn(8)
 	for i := 0; i < steps; i++ {
 		prev := r.frontier()
 		c := &commit{prev: prev, id: types.HashHeight{Hash: freshHash(rng), Height: prev.Height + 1}, data: genVal(rng)}
@@ -144,7 +148,10 @@ func crashHistory(rng *rand.Rand, out *Out) {
 		r.add(c, ops)
 	}
 	// the operation under test
-	isPop := rng.Intn(3) == 0
+	isPop := rng.Intn(3) == 0 && steps > 0
+	if steps == 0 {
+		out.Count("crash:first-commit-of-an-empty-store")
+	}
 	prev := r.frontier()
 	c := &commit{prev: prev, id: types.HashHeight{Hash: freshHash(rng), Height: prev.Height + 1}, data: genVal(rng)}
 	ops := genPatch(rng, sortedKeys(r.states[prev]))
@@ -196,7 +203,16 @@ func crashHistory(rng *rand.Rand, out *Out) {
 		nk.fs.Storage.Close()
 		os.RemoveAll(d)
 
-		re := openCrashNode(img)
+		// the restart: the store is opened the way a node opens it (db.NewLevelDBManager, the product's own options); a
+		// store that cannot be opened after a crash is neither "before" nor "after"
+		var rem db.Manager
+		if e := safe(func() error { rem = db.NewLevelDBManager(img); return nil }); e != nil || rem == nil {
+			out.Case("crash_point", Tup(I64(total), I64(k), kk%2 == 1), I64(-1), kind+"-unopenable")
+			out.Oracle(false, "crash-image-reopens", M{"writes_total": total, "crash_after": k, "torn": kk%2 == 1, "err": fmt.Sprint(e)})
+			os.RemoveAll(img)
+			continue
+		}
+		re := &crashNode{dir: img, m: rem}
 		got := observe(re.m, maxH)
 		which := int64(-1)
 		if got == before {
